@@ -212,7 +212,10 @@ def run_c08(R, tier):
                     if k == 'GRP' and card[1] != 1 and c is not None and getattr(m2, n.lower()):
                         from hl7apy.core import Group
                         g = Group(n, version=v, reference=c)
-                        if V.build(g, c, v, 2):
+                        # (only when the instance's first segment is a direct, non-repeatable member: its recurrence is
+                        #  what prescribes a new repetition; otherwise the text is ambiguous and nothing is prescribed)
+                        if V.build(g, c, v, 2) and g.children and g.children[0].classname == 'Segment' \
+                                and [cc[2][1] for cc in c[1] if cc[0] == g.children[0].name] == [1]:
                             # insert right after the existing instance to keep the segment order of the structure
                             idx = max(i for i, ch in enumerate(m2.children) if ch.name == n)
                             m2.children.insert(idx + 1, g)
@@ -252,7 +255,15 @@ def run_c08(R, tier):
                         continue
                     rep = p1.validate(return_errors=True)
                     if rep.errors:
-                        R.fail('C08:invalid:%s:%s:%s' % (v, mname, tag), 'C08:regrouped-message-invalid:%s:%s:%s' % (tag, v, mname),
+                        # attribution: when every error concerns a segment whose field table has a numbering gap (the
+                        # table-gap families of C01/C02: the field is encoded at / parsed from the wrong index), the
+                        # family is that segment, not the message
+                        gaps = sorted(set(g for e in rep.errors for g in gap_segments(L, p1) if mentions(str(e), g)))
+                        if gaps and all(any(mentions(str(e), g) for g in gaps) for e in rep.errors):
+                            fam = 'C08:regrouped-message-invalid:table-gap:%s:%s' % (v, '+'.join(gaps))
+                        else:
+                            fam = 'C08:regrouped-message-invalid:%s:%s:%s' % (tag, v, mname)
+                        R.fail('C08:invalid:%s:%s:%s' % (v, mname, tag), fam,
                                'v%s %s (%s): %s' % (v, mname, tag, [str(e) for e in rep.errors[:2]]))
                         continue
                 R.ok((v, mname, tag), {'version': v, 'message': mname, 'tree': tree(p1)} if len(R.samples) < 2 else None)
@@ -271,6 +282,24 @@ def run_c08(R, tier):
             R.fail('C08:order-dependent:%s-%s' % (a_, b_), 'C08:result-depends-on-earlier-parses', 'tree for v%s changed after parsing v%s' % (a_, b_))
         else:
             R.ok(('determinism', a_, b_))
+
+
+def gap_segments(L, msg):
+    out = []
+    for line in flat(msg):
+        seg = line[:3]
+        try:
+            names = [c[0] for c in L.SEGMENTS[seg][1]]
+        except Exception:
+            continue
+        if names != ['%s_%d' % (seg, i + 1) for i in range(len(names))] and seg not in out:
+            out.append(seg)
+    return out
+
+
+def mentions(err, seg):
+    import re
+    return re.search(r'(<Segment %s>|\b%s_\d+\b|\b%s\.)' % (seg, seg, seg), err) is not None
 
 
 def full_instance(mname, v):
